@@ -16,8 +16,8 @@ RULE = ("1-4 homogeneous equilibria built as small integer combinations (multipl
         "zero into the initial state).  Every case is evaluated in the 12 configurations {Lin, Log, Square} x "
         "rref_equil x rref_preserv with backend=sympy (+ Lin with new_eq_params=False) at the true state and at four "
         "violating states (one K scaled, one initial amount shifted, one concentration scaled, state moved along one "
-        "reaction; with rref_equil=True only 2 resp. 1 of the four, see _RREF_EQUIL_STATES).  Non-trivial = at least two equilibria sharing a species and a charged species takes part; "
-        "distinct by case digest.")
+        "reaction; with rref_equil=True only 2 resp. 1 of the four, see _RREF_EQUIL_STATES).  Non-trivial = at least "
+        "two equilibria sharing a species and a charged species takes part; distinct by case digest.")
 ASSUMPTIONS = ["vlib/gen_c07.py COMP table (hand-checked compositions of 29+ species) and the balanced pool reactions "
                "(asserted balanced against that table at import)",
                "sympy Rational arithmetic and sympy.N(expr, 50) (mpmath) evaluate the residual expressions returned by "
